@@ -74,6 +74,11 @@ CHECKS = {
             "the assembled global field (non-uniform r,v), analytic volume, min/max vs global field for all argument "
             "shapes, DiagnosticCollector slots under generated reduction orders",
             "Generated grids, layouts incl. replicated ones, process grids, roots, reduction orders.", "3/C17", MPI_NOTE),
+    "C18": ("property-based testing (Hypothesis): bit-exact checkpoint round trips across process counts through an "
+            "mpio-emulating h5py front, latest-file selection over generated time sets, grammar-generated constants files "
+            "vs plain-Python evaluation, and differential driver histories run(N)+restart(M) vs run(N+M)",
+            "Generated layouts, process counts at save/load, checkpoint time sets, constants files, save intervals and "
+            "restart points.", "3/C18", MPI_NOTE + " pgv.simh5 emulates the mpio driver (h5py here has no MPI support)."),
     "C20": ("exhaustive enumeration of a finite box + Hypothesis far beyond it, brute-force divisor oracle, "
             "line-event budget for termination",
             "All triples of the box are decided (exhaustive:true for that sub-check); termination as a "
